@@ -25,6 +25,7 @@ struct Cfg {
     list: Vec<String>,
     cache: bool,
     v6: bool,
+    log_level: &'static str,
 }
 
 struct Server {
@@ -62,11 +63,13 @@ fn start_server(exe: &str, work: &str, id: &str, cfg: &Cfg, upstream: SocketAddr
     std::fs::write(format!("{}/blacklist.txt", dir), cfg.list.join("\n")).unwrap();
     let port = hvcommon::net::free_port(if cfg.v6 { "::1" } else { "127.0.0.1" });
     let conf = format!(
-        "server {{\n  address \"{}\"\n  port {}\n  threads 4\n  blacklist {{\n    file \"{}/blacklist.txt\"\n    mode \"{}\"\n  }}\n  log {{\n    level \"error\"\n    console false\n  }}\n{}  route /file {{\n    file \"{}/one.html\"\n  }}\n  route /dir/* {{\n    directory \"{}/www\"\n  }}\n  route /proxy/* {{\n    proxy \"{}\"\n  }}\n  route /redir {{\n    redirect \"https://example.com/elsewhere?cfg={}\"\n  }}\n}}\n",
+        "server {{\n  address \"{}\"\n  port {}\n  threads 4\n  blacklist {{\n    file \"{}/blacklist.txt\"\n    mode \"{}\"\n  }}\n  log {{\n    level \"{}\"\n    console false\n  }}\n{}  route /file {{\n    file \"{}/one.html\"\n  }}\n  route /dir/* {{\n    directory \"{}/www\"\n  }}\n  route /proxy/* {{\n    proxy \"{}\"\n  }}\n  route /redir {{\n    redirect \"https://example.com/elsewhere?cfg={}\"\n  }}\n}}\n",
         if cfg.v6 { "[::1]" } else { "127.0.0.1" },
         port,
         dir,
         cfg.mode,
+        // the log level is a neighbouring setting that must not matter (seeded C19-M): all four occur over the configurations
+        cfg.log_level,
         if cfg.cache { "  cache {\n    size 1M\n    time 60\n  }\n" } else { "" },
         dir,
         dir,
@@ -170,7 +173,7 @@ fn run_config(r: &mut Report, exe: &str, work: &str, seed: u64, k: u64, up: &Scr
     if v6 && rng.chance(1, 2) && !list.contains(&"::1".to_string()) {
         list.push("::1".into());
     }
-    let cfg = Cfg { mode: if rng.chance(1, 2) { "block" } else { "forbidden" }, list, cache: rng.chance(1, 2), v6 };
+    let cfg = Cfg { mode: if rng.chance(1, 2) { "block" } else { "forbidden" }, list, cache: rng.chance(1, 2), v6, log_level: ["error", "warn", "info", "debug"][(k % 4) as usize] };
     let replay = vec!["c19".to_string(), "--seed".into(), seed.to_string(), "--config".into(), k.to_string()];
     let mut srv_opt = None;
     let mut last_err = String::new();
@@ -421,5 +424,5 @@ pub fn main(args: &Args) {
         total.nontrivial(1);
         total.nontrivial(2);
     }
-    total.write(out, "the real humphrey server binary started from generated configurations: blacklist mode {block, forbidden} x list {empty, the client's address, other addresses, IPv4+IPv6 entries, several client addresses} x cache on/off, with file, directory, proxy (scripted upstream) and redirect routes, bound to 127.0.0.1 (every 8th configuration to [::1]); clients bound to chosen 127/8 source addresses (or ::1) send requests with and without X-Forwarded-For naming listed and unlisted addresses, with and without blanks after commas, in three header spellings, one list in four with a non-address element (unknown, _hidden, address:port, empty, a host name) before its last element. distinct = distinct (configuration, request); all are non-trivial (the answer is judged against the blacklist rule)", None, &["'on behalf of' = the origin as C02 defines it (last listed entry); a listed address appearing only in an earlier proxy position is not judged", "a dual-stack [::] listener (IPv4 peers seen as ::ffff:a.b.c.d) is not explored", "the readiness probe connects from 127.0.0.250, which is never listed"]);
+    total.write(out, "the real humphrey server binary started from generated configurations: blacklist mode {block, forbidden} x list {empty, the client's address, other addresses, IPv4+IPv6 entries, several client addresses} x cache on/off x log level {error, warn, info, debug}, with file, directory, proxy (scripted upstream) and redirect routes, bound to 127.0.0.1 (every 8th configuration to [::1]); clients bound to chosen 127/8 source addresses (or ::1) send requests with and without X-Forwarded-For naming listed and unlisted addresses, with and without blanks after commas, in three header spellings, one list in four with a non-address element (unknown, _hidden, address:port, empty, a host name) before its last element. distinct = distinct (configuration, request); all are non-trivial (the answer is judged against the blacklist rule)", None, &["'on behalf of' = the origin as C02 defines it (last listed entry); a listed address appearing only in an earlier proxy position is not judged", "a dual-stack [::] listener (IPv4 peers seen as ::ffff:a.b.c.d) is not explored", "the readiness probe connects from 127.0.0.250, which is never listed"]);
 }
